@@ -86,6 +86,8 @@ pub fn run(args: &[String]) {
     let w = make_world(seed);
     let mut out = battery::Out::default();
     let ids: Vec<u64> = match only {
+        // a shared-origin case is judged together with what was derived before it in its block
+        Some(i) if i >= gen::N_CORPUS && (i / 8) % 10 == 7 => ((i - i % 8)..=i).collect(),
         Some(i) => vec![i],
         None => (0..n_cases).collect(),
     };
